@@ -782,8 +782,8 @@ def generate(rng, tier):
                 st = rng.choice(["plain", "tracer"] if k == 1 else ["multi", "tracer", "nested"])
                 cases.append(_base(config, kind=kind, as_text=as_text, k=k, stacking=st,
                                    n=rng.choice([0, 2]), mw_async=rng.random() < 0.5, **extra))
-    n_block = 200 if quick else 1200
-    n_def = 85 if quick else 280
+    n_block = 200 if quick else 900
+    n_def = 85 if quick else 220
     for config in ("blocking", "generic"):
         for _ in range(n_block):
             cases.append(_gen_exec(rng, config, 0, 1))
@@ -791,7 +791,7 @@ def generate(rng, tier):
         for _ in range(n_def):
             cases.append(_gen_exec(rng, config, rng.choice([2, 3, 4, 5]), 120))
         # all orders of a few larger operations
-        for _ in range(3 if quick else 8):
+        for _ in range(3 if quick else 6):
             cases.append(_gen_exec(rng, config, 6, 120 if quick else 720))
     if not quick:
         flat6 = [[None, f, None, []] for f in ("a", "b", "c")] + [["a2", "a", None, []], ["b2", "b", None, []],
@@ -803,7 +803,7 @@ def generate(rng, tier):
             deep = _base(config, sel=[[None, "o", None, [[None, "a", None, []], [None, "o", None, [[None, "a", None, []], [None, "b", None, []]]]]],
                                       [None, "p", None, [[None, "a", None, []], [None, "c", None, []]]], [None, "a", None, []]],
                          world={"o/o/a": "err", "p/c": "null"}, n=2, k=1, stacking="tracer", mw_async=config == "asyncio",
-                         deferred=["Query.o", "Query.p", "Query.a", "Obj.a", "Obj.o", "Obj.b", "Obj.c"], max_orders=2520)
+                         deferred=["Query.o", "Query.p", "Query.a", "Obj.a", "Obj.o", "Obj.b", "Obj.c"], max_orders=1500)
             cases.extend(_chunked(deep, 120))
     return cases
 
